@@ -131,6 +131,35 @@ pub fn c10(ctx: &Ctx, subj: &dyn DynSubject, ty: &Ty, rep: &mut Report) {
             m[bit / 8] ^= 1 << (bit % 8);
             muts.push((format!("minor version 0 and flip bit {} of byte {}", bit % 8, bit / 8), m));
         }
+        // the same mask on both hash fields (their differences cancel in any combined test), and the two fields
+        // exchanged
+        for bit in 0..64usize {
+            let mut m = bytes[..FIXED_HEADER].to_vec();
+            m[13 + bit / 8] ^= 1 << (bit % 8);
+            m[21 + bit / 8] ^= 1 << (bit % 8);
+            muts.push((format!("flip bit {} of both the type hash and the alignment hash", bit), m));
+        }
+        for _ in 0..6 {
+            let mask = ent.u64().to_ne_bytes();
+            if mask == [0; 8] {
+                continue;
+            }
+            let mut m = bytes[..FIXED_HEADER].to_vec();
+            for j in 0..8 {
+                m[13 + j] ^= mask[j];
+                m[21 + j] ^= mask[j];
+            }
+            muts.push((format!("xor both hashes with {:02x?}", mask), m));
+        }
+        {
+            let mut m = bytes[..FIXED_HEADER].to_vec();
+            let (a, b) = (m[13..21].to_vec(), m[21..29].to_vec());
+            m[13..21].copy_from_slice(&b);
+            m[21..29].copy_from_slice(&a);
+            if a != b {
+                muts.push(("type hash and alignment hash exchanged".into(), m));
+            }
+        }
         for (n, (what, head)) in muts.iter().enumerate() {
             let mut mutated = bytes.clone();
             mutated[..FIXED_HEADER].copy_from_slice(head);
@@ -157,6 +186,38 @@ pub fn c10(ctx: &Ctx, subj: &dyn DynSubject, ty: &Ty, rep: &mut Report) {
             };
             if let Err(e) = verdict {
                 return Err(Fail::new(&format!("header-eps:{}", expect_name(&x)), format!("{} -> expected {} from deserialize_eps, but {}", what, expect_name(&x), e)).env(json!({"mutation": what, "mode": "eps"})));
+            }
+        }
+        // a valid file that records another type *name* (the name is informative: a renamed type, a newtype that
+        // hashes like the type it wraps): flips of either hash are still reported with the right variant and values,
+        // now carrying the recorded name
+        {
+            let foreign = "legacy::Samples<u16>";
+            let renamed = crate::checks::cross::rename_stream(&bytes, foreign);
+            for bit in [0usize, 7, 63] {
+                for field in [13usize, 21] {
+                    let mut m = renamed.clone();
+                    m[field + bit / 8] ^= 1 << (bit % 8);
+                    let x = expectation(&renamed, &m);
+                    log.extra_evals += 2;
+                    let r = guard(|| subj.full(&mut std::io::Cursor::new(&m[..])));
+                    let verdict = match &r {
+                        Err(p) => Err(format!("panicked: {}", p)),
+                        Ok(r) => matches_expect(r, &x, v, (foreign, tname)),
+                    };
+                    if let Err(e) = verdict {
+                        return Err(Fail::new(&format!("header-full-foreign-name:{}", expect_name(&x)), format!("file recording the type name {:?}, bit {} of the {} hash flipped -> expected {} from deserialize_full, but {}", foreign, bit, if field == 13 { "type" } else { "alignment" }, expect_name(&x), e)).env(json!({"mutation": "foreign name", "mode": "full"})));
+                    }
+                    let pl = Placed::new(&m, 16384, 0);
+                    let r = guard(|| subj.eps(pl.bytes()).map(|o| o.val));
+                    let verdict = match &r {
+                        Err(p) => Err(format!("panicked: {}", p)),
+                        Ok(r) => matches_expect(r, &x, v, (foreign, tname)),
+                    };
+                    if let Err(e) = verdict {
+                        return Err(Fail::new(&format!("header-eps-foreign-name:{}", expect_name(&x)), format!("file recording the type name {:?}, bit {} of the {} hash flipped -> expected {} from deserialize_eps, but {}", foreign, bit, if field == 13 { "type" } else { "alignment" }, expect_name(&x), e)).env(json!({"mutation": "foreign name", "mode": "eps"})));
+                    }
+                }
             }
         }
         // the file loaders go through the same header check: the reversed cookie and a few generated mutations,
